@@ -249,7 +249,7 @@ def run(prop, replay_file=None):
         if prop == "C03":
             # one position in isolation: every sign pattern of up to MaxFills fills with interleaved marks
             with open(os.path.join(w, "pos.cfg"), "w") as fh:
-                fh.write("SPECIFICATION Spec\nCONSTANTS\n  MaxFills = %d\n  Direct = FALSE\nINVARIANT C03_Identities\nPROPERTY C03_Mark\nVIEW View\n"
+                fh.write("SPECIFICATION Spec\nCONSTANTS\n  MaxFills = %d\n  Direct = FALSE\nINVARIANT C03_Identities\nINVARIANT C03_Homogeneous\nPROPERTY C03_Mark\nVIEW View\n"
                          "CHECK_DEADLOCK FALSE\n" % (4 if t == "quick" else 6))
             try:
                 r = tlc.run(w, "MC_Position", "pos.cfg", workers=16, timeout=3000)
@@ -258,7 +258,7 @@ def run(prop, replay_file=None):
                     rep.machinery.append("Position.tla itself violates %s (spec error)" % r.violated)
                 # the Position class used directly: it survives being flat and is traded again (the "flat" control path)
                 with open(os.path.join(w, "posd.cfg"), "w") as fh:
-                    fh.write("SPECIFICATION Spec\nCONSTANTS\n  MaxFills = %d\n  Direct = TRUE\nINVARIANT C03_Identities\nPROPERTY C03_Mark\nVIEW View\n"
+                    fh.write("SPECIFICATION Spec\nCONSTANTS\n  MaxFills = %d\n  Direct = TRUE\nINVARIANT C03_Identities\nINVARIANT C03_Homogeneous\nPROPERTY C03_Mark\nVIEW View\n"
                              "CHECK_DEADLOCK FALSE\n" % (4 if t == "quick" else 5))
                 r = tlc.run(w, "MC_Position", "posd.cfg", workers=16, timeout=3000)
                 rep.add_mc(r, "MC_Position(direct)")
